@@ -71,8 +71,8 @@ Menu == <<
      N(3, "author", "", "User"), N(5, "username", "", "")>>]
 >>
 
-VARIABLES m, frags, in, dup, nul, al, acts
-gvars == <<m, frags, in, dup, nul, al, acts>>
+VARIABLES m, frags, in, dup, nul, al, nc, reuse, acts
+gvars == <<m, frags, in, dup, nul, al, nc, reuse, acts>>
 
 Nodes == Menu[m].nodes
 NodeIds == DOMAIN Nodes
@@ -89,13 +89,15 @@ GenInit ==
   /\ dup = [x \in DOMAIN Menu[m].nodes |-> -1]
   /\ nul \in IF Pin THEN {0} ELSE {0} \cup DOMAIN Menu[m].nulls
   /\ al \in IF Pin THEN {{}} ELSE {{}} \cup {{x} : x \in {y \in DOMAIN Menu[m].nodes : Menu[m].nodes[y].ty # ""}}
+  /\ nc = [x \in DOMAIN Menu[m].nodes |-> ""]
+  /\ reuse = <<>>
   /\ acts = <<>>
 
 SameTc(S) == \A x, y \in S : Nodes[x].tc = Nodes[y].tc
 Sub(S) == {T \in SUBSET S : T # {} /\ Cardinality(T) <= MaxSub /\ SameTc(T)}
 
 TcOf(S) == Nodes[CHOOSE x \in S : TRUE].tc
-NewFrag(h, up, kind, typed, tc) == [host |-> h, up |-> up, kind |-> kind, mode |-> "on", label |-> FALSE, typed |-> typed, tc |-> tc]
+NewFrag(h, up, kind, typed, tc) == [host |-> h, up |-> up, kind |-> kind, mode |-> "on", label |-> FALSE, typed |-> typed, tc |-> tc, cond |-> ""]
 
 \* wrap plain fields of selection set h into a new fragment
 Wrap(kind, name) ==
@@ -104,7 +106,7 @@ Wrap(kind, name) ==
     /\ frags' = Append(frags, NewFrag(h, 0, kind, typed \/ kind = "spread", TcOf(S)))
     /\ in' = [x \in NodeIds |-> IF x \in S THEN NF + 1 ELSE in[x]]
     /\ acts' = Append(acts, IF \E j \in DOMAIN frags : frags[j].host = h THEN "SiblingDefer" ELSE name)
-    /\ UNCHANGED <<m, dup, nul, al>>
+    /\ UNCHANGED <<m, dup, nul, al, nc, reuse>>
 DeferInline == Wrap("inline", "DeferInline")
 DeferSpread == Wrap("spread", "DeferSpread")
 
@@ -115,21 +117,22 @@ NestDefer ==
     /\ frags' = Append(frags, NewFrag(frags[f].host, f, kind, kind = "spread", frags[f].tc))
     /\ in' = [x \in NodeIds |-> IF x \in S THEN NF + 1 ELSE in[x]]
     /\ acts' = Append(acts, "NestDefer")
-    /\ UNCHANGED <<m, dup, nul, al>>
+    /\ UNCHANGED <<m, dup, nul, al, nc, reuse>>
 
 SetMode ==
   \E f \in DOMAIN frags : \E md \in {"ifFalse", "varTrue", "varFalse"} :
     /\ frags[f].mode = "on"
     /\ frags' = [frags EXCEPT ![f].mode = md]
     /\ acts' = Append(acts, IF md = "ifFalse" THEN "DeferIfFalse" ELSE "DeferIfVar")
-    /\ UNCHANGED <<m, in, dup, nul, al>>
+    /\ UNCHANGED <<m, in, dup, nul, al, nc, reuse>>
 
 Label ==
   \E f \in DOMAIN frags :
+    /\ reuse = <<>>
     /\ ~frags[f].label
     /\ frags' = [frags EXCEPT ![f].label = TRUE]
     /\ acts' = Append(acts, "Label")
-    /\ UNCHANGED <<m, in, dup, nul, al>>
+    /\ UNCHANGED <<m, in, dup, nul, al, nc, reuse>>
 
 \* leaf children that can be copied along with a composite field
 LeafKids(x) == {y \in Kids(x) : Nodes[y].ty = "" /\ Nodes[y].tc = ""}
@@ -143,7 +146,7 @@ Overlap ==
     /\ j # 0 => frags[j].host = Nodes[x].p /\ frags[j].tc = Nodes[x].tc
     /\ dup' = [dup EXCEPT ![x] = j]
     /\ acts' = Append(acts, IF j = 0 THEN "OverlapPlain" ELSE "OverlapDeferred")
-    /\ UNCHANGED <<m, frags, in, nul, al>>
+    /\ UNCHANGED <<m, frags, in, nul, al, nc, reuse>>
 
 \* alias a composite field on the path from the root to a fragment (list fields and their ancestors in particular)
 RECURSIVE IsAnc(_, _)
@@ -154,7 +157,41 @@ AddAlias ==
     /\ \E f \in DOMAIN frags : IsAnc(x, frags[f].host)
     /\ al' = al \cup {x}
     /\ acts' = Append(acts, "AddAlias")
-    /\ UNCHANGED <<m, frags, in, dup, nul>>
+    /\ UNCHANGED <<m, frags, in, dup, nul, nc, reuse>>
+
+(* @skip / @include next to @defer: on the deferred fragment itself and on fields inside a fragment; literal and     *)
+(* variable, both truth values (skipT = @skip(if:true), inclVF = @include(if:$v) with v = false, ...).              *)
+Conds == {"skipT", "skipF", "inclT", "inclF", "skipVT", "skipVF", "inclVT", "inclVF"}
+CondOnFragment ==
+  \E f \in DOMAIN frags : \E c \in Conds :
+    /\ frags[f].cond = ""
+    /\ frags' = [frags EXCEPT ![f].cond = c]
+    /\ acts' = Append(acts, "CondOnFragment")
+    /\ UNCHANGED <<m, in, dup, nul, al, nc, reuse>>
+CondOnField ==
+  \E x \in NodeIds : \E c \in Conds :
+    /\ nc[x] = "" /\ Nodes[x].f # "__typename"
+    /\ \E a \in NodeIds : IsAnc(a, x) /\ in[a] # 0
+    /\ nc' = [nc EXCEPT ![x] = c]
+    /\ acts' = Append(acts, "CondOnField")
+    /\ UNCHANGED <<m, frags, in, dup, nul, al, reuse>>
+
+(* The same named fragment spread a second time: deferred again or plain, at its own place or at another selection   *)
+(* set of the same type (not inside the fragment itself).                                                          *)
+HostType(h) == IF h = 0 THEN Menu[m].root ELSE Nodes[h].ty
+RECURSIVE Within(_, _)
+\* fragment g is f or nested (directly, same selection set) inside f
+Within(g, f) == g # 0 /\ (g = f \/ Within(frags[g].up, f))
+ReuseSpread ==
+  \E f \in DOMAIN frags : \E h \in Hosts : \E d \in BOOLEAN :
+    /\ reuse = <<>>
+    /\ frags[f].kind = "spread" /\ frags[f].tc = "" /\ frags[f].up = 0
+    /\ \A g \in DOMAIN frags : ~frags[g].label
+    /\ HostType(h) = HostType(frags[f].host)
+    /\ ~\E x \in NodeIds : in[x] # 0 /\ Within(in[x], f) /\ IsAnc(x, h)
+    /\ reuse' = <<[f |-> f, host |-> h, d |-> d]>>
+    /\ acts' = Append(acts, IF d THEN "ReuseSpreadDeferred" ELSE "ReuseSpreadPlain")
+    /\ UNCHANGED <<m, frags, in, dup, nul, al, nc>>
 
 (* Focused family (Pin): untyped inline fragments created host by host plus copies of a composite field in a    *)
 (* sibling fragment.  Printed shape SharedNested: two sibling fragments select the SAME object field (the field  *)
@@ -167,19 +204,20 @@ PinWrap ==
     /\ frags' = Append(frags, NewFrag(h, 0, "inline", FALSE, TcOf(S)))
     /\ in' = [x \in NodeIds |-> IF x \in S THEN NF + 1 ELSE in[x]]
     /\ acts' = Append(acts, IF \E j \in DOMAIN frags : frags[j].host = h THEN "SiblingDefer" ELSE "DeferInline")
-    /\ UNCHANGED <<m, dup, nul, al>>
+    /\ UNCHANGED <<m, dup, nul, al, nc, reuse>>
 PinOverlap ==
   \E x \in NodeIds : \E j \in DOMAIN frags :
     /\ in[x] # 0 /\ dup[x] = -1 /\ Nodes[x].ty # "" /\ LeafKids(x) # {}
     /\ j # in[x] /\ frags[j].host = Nodes[x].p /\ frags[j].tc = Nodes[x].tc
     /\ dup' = [dup EXCEPT ![x] = j]
     /\ acts' = Append(acts, "OverlapDeferred")
-    /\ UNCHANGED <<m, frags, in, nul, al>>
+    /\ UNCHANGED <<m, frags, in, nul, al, nc, reuse>>
 SharedNested == \E x \in NodeIds : dup[x] > 0 /\ in[x] # 0 /\ (\E f \in DOMAIN frags : frags[f].host = x)
 
 GenNext == Len(acts) < MaxActs /\
            IF Pin THEN PinWrap \/ PinOverlap
            ELSE DeferInline \/ DeferSpread \/ NestDefer \/ SetMode \/ Label \/ Overlap \/ AddAlias
+                \/ CondOnFragment \/ CondOnField \/ ReuseSpread
 GenSpec == GenInit /\ [][GenNext]_gvars
 
 RECURSIVE SetSeq(_)
@@ -188,7 +226,7 @@ SetSeq(S) == IF S = {} THEN <<>> ELSE LET x == CHOOSE y \in S : \A z \in S : y <
 Emit ==
   IF frags # <<>> /\ (Pin => SharedNested)
   THEN PrintT(ToJson([m |-> m, root |-> Menu[m].root, nodes |-> Nodes, frags |-> frags, in |-> in, dup |-> dup,
-                      nul |-> IF nul = 0 THEN "" ELSE Menu[m].nulls[nul], al |-> SetSeq(al), acts |-> acts]))
+                      nul |-> IF nul = 0 THEN "" ELSE Menu[m].nulls[nul], al |-> SetSeq(al), nc |-> nc, reuse |-> reuse, acts |-> acts]))
   ELSE TRUE
 GenConstraint == Emit
 =============================================================================
